@@ -16,6 +16,49 @@ use crate::length::DataLengthProcessingMode;
 use crate::{FuzzyHashType, GeneratorType};
 use core::alloc::Layout;
 
+// Native replay (cargo kani playback = a test build): the stubs above are inactive, so a counting
+// global allocator (per-thread counter, const-initialised TLS) makes an allocation observable.
+#[cfg(test)]
+mod counting {
+    use std::alloc::{GlobalAlloc, Layout, System};
+    use std::cell::Cell;
+    thread_local! {
+        pub static ALLOCS: Cell<usize> = const { Cell::new(0) };
+    }
+    pub struct Counting;
+    unsafe impl GlobalAlloc for Counting {
+        unsafe fn alloc(&self, l: Layout) -> *mut u8 {
+            let _ = ALLOCS.try_with(|c| c.set(c.get() + 1));
+            System.alloc(l)
+        }
+        unsafe fn dealloc(&self, p: *mut u8, l: Layout) {
+            System.dealloc(p, l)
+        }
+        unsafe fn alloc_zeroed(&self, l: Layout) -> *mut u8 {
+            let _ = ALLOCS.try_with(|c| c.set(c.get() + 1));
+            System.alloc_zeroed(l)
+        }
+        unsafe fn realloc(&self, p: *mut u8, l: Layout, n: usize) -> *mut u8 {
+            let _ = ALLOCS.try_with(|c| c.set(c.get() + 1));
+            System.realloc(p, l, n)
+        }
+    }
+    #[global_allocator]
+    static A: Counting = Counting;
+}
+
+/// Number of heap allocations made by this thread so far (native replay only; 0 under Kani).
+pub(crate) fn native_allocs() -> usize {
+    #[cfg(test)]
+    {
+        counting::ALLOCS.with(|c| c.get())
+    }
+    #[cfg(not(test))]
+    {
+        0
+    }
+}
+
 unsafe fn no_alloc(_l: Layout) -> *mut u8 {
     assert!(false, "heap allocation reached");
     core::ptr::null_mut()
@@ -63,6 +106,7 @@ macro_rules! c18_hash_ops {
         fn $name() {
             // parse (accepting and rejecting), TryFrom, store_*, compare, clear_checksum, accessors
             let text: [u8; $l] = kani::any();
+            let allocs_before = native_allocs();
             let with: bool = kani::any();
             let s: &[u8] = if with { &text[..] } else { &text[2..] };
             let parsed = <$ty>::from_str_bytes(s, None);
@@ -84,6 +128,7 @@ macro_rules! c18_hash_ops {
             b.clear_checksum();
             let _ = (b.checksum().data()[0], b.length().value(), b.qratios().q1ratio(), b.body().quartile(0));
             let _ = (b.checksum().is_valid(), b.length().is_valid(), b.length().range());
+            assert!(native_allocs() == allocs_before, "heap allocation during core operations");
             kani::cover!(parsed.is_ok());
             kani::cover!(parsed.is_err());
         }
